@@ -14,9 +14,12 @@ import (
 // released and then reads the clock.  MemoryCache.Set calls clock.Now() exactly once, between its size
 // pre-check and its write-locked insert; Get/Has call it once, after their read-locked map lookup.  So a parked
 // call sits exactly between two critical sections - no hook in /repo is needed to schedule them.
+// It also separates WALL time from ELAPSED time: Sleep/After live on the manual (elapsed) timeline, Now() adds
+// `offset`, which `wstep` moves (NTP step, VM resume) without any time elapsing.
 type gateClock struct {
 	*detclock.Manual
 	mu      sync.Mutex
+	offset  time.Duration
 	armed   bool
 	reached chan chan struct{} // the parked call hands over its release channel
 }
@@ -33,10 +36,26 @@ func (g *gateClock) Now() time.Time {
 		rel := make(chan struct{})
 		g.reached <- rel
 		<-rel
-		return g.Manual.Now()
+		return g.wall()
 	}
 	g.mu.Unlock()
-	return g.Manual.Now()
+	return g.wall()
+}
+
+func (g *gateClock) wall() time.Time {
+	g.mu.Lock()
+	off := g.offset
+	g.mu.Unlock()
+	return g.Manual.Now().Add(off)
+}
+
+func (g *gateClock) Since(t time.Time) time.Duration { return g.wall().Sub(t) }
+func (g *gateClock) Until(t time.Time) time.Duration { return t.Sub(g.wall()) }
+
+func (g *gateClock) step(d time.Duration) {
+	g.mu.Lock()
+	g.offset += d
+	g.mu.Unlock()
 }
 
 func (g *gateClock) arm(on bool) {
@@ -129,6 +148,17 @@ func (e *env) gatedOp(w []string) (string, bool) {
 		}
 		e.cnt("gated-has")
 		return e.startGated(id, func() string { return strconv.FormatBool(e.mc.Has(k)) }), true
+	case "wstep":
+		if len(w) != 2 {
+			return "bad-op", true
+		}
+		d, ok := kvI(w[1:], "d")
+		if !ok {
+			return "bad-op", true
+		}
+		e.gate.step(time.Duration(d))
+		e.cnt("wall-step")
+		return "ok", true
 	case "crel":
 		if len(w) != 2 {
 			return "bad-op", true
